@@ -491,6 +491,26 @@ func vfC17Do(t *testing.T, s *vfutil.Session, c *vfC17Case, tag int, src string)
 		for k := 1; k < len(run.sp); k++ {
 			pk, errk := vfParsePos(run.sp[k])
 			if !errk && pk.ok && pk.off >= 0 {
+				// a complete entry (offset stored WITH its own run id) that was there all the time, shadowed by an
+				// unreadable larger one the operation replaced, is a position somebody vouches for: not invented
+				vouched := false
+				for _, it := range c.st.Items {
+					if it.Db != pk.db || (it.Key != c.local && it.Key != resolved) {
+						continue
+					}
+					for _, id := range c.ids {
+						hasOff, hasRid := false, false
+						for _, f := range it.Fields {
+							hasOff = hasOff || (f[0] == id+"_offset" && f[1] == strconv.FormatInt(pk.off, 10))
+							hasRid = hasRid || (f[0] == id+"_runid" && f[1] == id)
+						}
+						vouched = vouched || (hasOff && hasRid)
+					}
+				}
+				if vouched {
+					s.Count("no_position_unshadowed")
+					break
+				}
 				s.Violate("update-invents-position", fmt.Sprintf("no readable position before (%s); after request #%d (%s) a start reads %s [%s]", run.sp[0], k, run.lines[k-1], run.sp[k], why),
 					map[string]interface{}{"op": run.op, "crash_after_request": k, "after": run.sp[k]})
 				break
